@@ -417,7 +417,7 @@ def dispatch_on_models(prog, r, gm):
     from pathlib import PurePosixPath
 
     from ..guards import Flow, Obj
-    from ..objinterp import ObjRunner
+    from ..objinterp import FuncRef, ObjRunner
     where = f"pdb2pqr/io.py:{gm.lineno} (get_molecule)"
     for path in MODEL_PATHS:
         for errs in ([], ["unparsed line"]):
@@ -435,6 +435,9 @@ def dispatch_on_models(prog, r, gm):
                     return Obj({"__class__": "<file>"})
                 if name.endswith(".close") and isinstance(args, list) and not args:
                     return None
+                held = interp.env.get(name) if isinstance(call.func, ast.Name) else None
+                if isinstance(held, FuncRef):  # a reader held in a variable (read_records = cif.read_cif if ... else pdb.read_pdb)
+                    name = {"cif.py::read_cif": "cif.read_cif", "pdb.py::read_pdb": "pdb.read_pdb"}.get(held.finfo.key, name)
                 if name in ("cif.read_cif", "read_cif"):
                     used.append("cif")
                     return (["<records of the CIF reader>"], list(errs))
